@@ -102,7 +102,19 @@ def gen(rng, ctx):
         c0 = G.shuffle_nodes(rng, c0)
         if pk == "copy":
             c1 = {**c0, "name": "cb"}
-    return {"c0": c0, "c1": c1, "pair": pk, "startpoints": sps, "endpoints": eps, "as_set": rng.random() < 0.5, "repeat": rng.random() < 0.2}
+    case = {"c0": c0, "c1": c1, "pair": pk, "startpoints": sps, "endpoints": eps, "as_set": rng.random() < 0.5, "repeat": rng.random() < 0.2}
+    r = rng.random()
+    if r < 0.05 and sps is None:
+        case["empty_startpoints"] = True  # the empty subset, given explicitly: nothing is tied
+    elif r < 0.08 and eps is None:
+        case["empty_endpoints"] = True  # nothing is compared: sat is constantly 0
+    elif r < 0.11 and eps is None:
+        # no output anywhere (all endpoints are unmarked): the default selection is empty
+        for cd_ in (c0, c1):
+            if cd_ is not None:
+                cd_["nodes"] = [[n, t, False] for n, t, _ in cd_["nodes"]]
+        case["no_outputs"] = True
+    return case
 
 
 def check(case, ctx):
@@ -134,10 +146,15 @@ def check_pair(case, ctx, c0d, c1d):
     sp0, sp1 = n0.inputs(), n1.inputs()
     tied = set(case["startpoints"]) if case["startpoints"] else (sp0 & sp1)
     eps = set(case["endpoints"]) if case["endpoints"] else (n0.outputs & n1.outputs)
+    if case.get("empty_startpoints"):
+        tied = set()
+        ctx.count("explicit_empty_startpoints")
+    if case.get("empty_endpoints"):
+        eps = set()
+        ctx.count("explicit_empty_endpoints")
     if not eps:
-        ctx.count("skipped:no_shared_endpoint")
-        ctx.trivial()
-        return
+        # nothing to compare: the miter exists, its sat output is constantly 0 and solve(sat=1) is False
+        ctx.count("no_compared_endpoint")
     form = zlib.crc32(repr((sorted(case["startpoints"] or []), sorted(case["endpoints"] or []))).encode()) % 8
     if form == 0:
         conv = lambda x: (y for y in list(x))  # noqa: E731  one-shot generator
@@ -154,8 +171,13 @@ def check_pair(case, ctx, c0d, c1d):
     if case["startpoints"] or case["endpoints"]:
         ctx.count(f"node_sets_as:{('generator', 'iterator', 'tuple', 'dict_keys', 'frozenset')[form] if form < 5 else ('set' if case['as_set'] else 'list')}")
     sarg = conv(case["startpoints"]) if case["startpoints"] else None
+    empties = [set(), [], (), frozenset()]
+    if case.get("empty_startpoints"):
+        sarg = empties[len(c0d["nodes"]) % 4]
     # endpoints are measured with len() by the documented code ("set of str"): sized collections only
     earg = (conv if form >= 2 else list)(case["endpoints"]) if case["endpoints"] else None
+    if case.get("empty_endpoints"):
+        earg = empties[len(c0d["edges"]) % 4]
     ok, m = ctx.call(cg.tx.miter, c0, c1, sarg, earg)
     if case.get("repeat") and form >= 2:
         from rv.props._util import repeat_call
@@ -228,5 +250,5 @@ def check_pair(case, ctx, c0d, c1d):
 
 
 def gates(counters, table, tier):
-    need = ["endpoint_that_is_not_an_output", "pair:wide_each", "wide_each:count_1_mod_16", "pair:role_overlap", "pair:copy", "pair:equiv", "pair:mutant", "pair:overlap", "pair:self", "single_endpoint", "untied_startpoints", "explicit_startpoints", "agree", "differ"]
+    need = ["endpoint_that_is_not_an_output", "pair:wide_each", "wide_each:count_1_mod_16", "pair:role_overlap", "pair:copy", "pair:equiv", "pair:mutant", "pair:overlap", "pair:self", "single_endpoint", "untied_startpoints", "explicit_startpoints", "explicit_empty_startpoints", "explicit_empty_endpoints", "no_compared_endpoint", "agree", "differ"]
     return [f"{k} seen {counters.get(k, 0)} times" for k in need if counters.get(k, 0) < 10]
